@@ -328,6 +328,14 @@ def wire_cases(rng, tier):
             pl = bytes([rng.randrange(256)]) * n
             h = _tcp_header(rng)
             yield Case(["ck.w.tcp%d\t%s\t%s\t%s\t%s" % (v, hx(src), hx(dst), hx(h), hx(pl))], {"k": "w", "want": 0, "data": hx(pl)})
+    # ICMPv6 messages of 64 KiB and more (jumbograms): the pseudo header carries the 32 bit message length
+    for n in ([65527, 65528, 70000] if tier == "quick" else [65526, 65527, 65528, 65529, 70000, 131072]):
+        src, dst = _addr_pair(rng, 16)
+        m = bytes([128, 0]) + rbytes(rng, 2) + rbytes(rng, 4) + bytes([rng.randrange(256)]) * n
+        w = rfc1071(pseudo6(src, dst, 58, len(m)) + zero_at(m, 2))
+        if rng.random() < 0.5:
+            m = m[:2] + w.to_bytes(2, "big") + m[4:]
+        yield Case(["ck.w.icmp6\t%s\t%s\t%s" % (hx(src), hx(dst), hx(m))], {"k": "w6", "want": w, "valid": False, "data": hx(m)})
     # Sum16BitWords method chains: random even-sized parts through add_2/4/8/16bytes and add_slice,
     # biased to saturated accumulators (all ones) so that carries out of bit 63 happen
     n = 3000 if tier == "quick" else 60000
